@@ -150,13 +150,14 @@ func TermScope(N, nk int, yield func(idx int64, batch []Doc) bool) {
 var fieldNames = []string{"a", "b", "c"}
 
 // FieldScope enumerates FIELD(N): fields a,b,c per doc in {absent, term, term+loc "",
-// term+loc -> next field}, both declaration orders. Cases whose location names a field absent
+// term+loc -> next field, term+[loc -> next field, loc ""], term+[loc "", loc -> next field]},
+// both declaration orders. Cases whose location names a field absent
 // from the batch are outside the input contract and skipped (not numbered).
-func FieldScope(N int, orders int, yield func(idx int64, batch []Doc) bool) {
+func FieldScope(N int, orders int, nopt int, yield func(idx int64, batch []Doc) bool) {
 	var idx int64
 	for n := 0; n <= N; n++ {
 		for order := 0; order < orders; order++ {
-			ok := Pow(4, n*3, func(v []int) bool {
+			ok := Pow(nopt, n*3, func(v []int) bool {
 				present := map[string]bool{}
 				named := map[string]bool{}
 				batch := make([]Doc, n)
@@ -184,6 +185,16 @@ func FieldScope(N int, orders int, yield func(idx int64, batch []Doc) bool) {
 							nx := fieldNames[(fi+1)%3]
 							named[nx] = true
 							t.Locs = []Loc{{F: nx, P: 2, S: d, E: d + 2}}
+						case 4: // a location naming another field, then one with an empty field name
+							nx := fieldNames[(fi+1)%3]
+							named[nx] = true
+							t.Freq = 2
+							t.Locs = []Loc{{F: nx, P: 2, S: d, E: d + 2}, {P: 3, S: d + 3, E: d + 4}}
+						case 5: // the other order
+							nx := fieldNames[(fi+1)%3]
+							named[nx] = true
+							t.Freq = 2
+							t.Locs = []Loc{{P: 3, S: d + 3, E: d + 4}, {F: nx, P: 2, S: d, E: d + 2}}
 						}
 						f := fld(name, t)
 						if fi == 0 {
@@ -222,7 +233,7 @@ func repInstance(name string, k int, composite bool) Field {
 	case 1:
 		ts = []Term{{T: "x", Freq: 2, Locs: []Loc{{F: lf, P: 1 + k, S: 1, E: 2}}}}
 	case 2:
-		ts = []Term{{T: "y", Freq: 1, Locs: []Loc{{F: lf, P: 7, S: 3, E: 4}}}, {T: "x", Freq: 1, Locs: []Loc{{F: lf, P: 9, S: 5, E: 6}}}}
+		ts = []Term{{T: "y", Freq: 1, Locs: []Loc{{F: lf, P: 7, S: 3, E: 4}}}, {T: "x", Freq: 2, Locs: []Loc{{F: lf, P: 9, S: 5, E: 6}, {P: 10, S: 7, E: 8}}}}
 	case 3:
 		// the same term twice inside one instance
 		ts = []Term{{T: "x", Freq: 1, Locs: []Loc{{F: lf, P: 2, S: 0, E: 1}}}, {T: "x", Freq: 3, Locs: []Loc{{F: lf, P: 4, S: 8, E: 9}}}}
@@ -289,7 +300,7 @@ func MixDoc(kind int, tag string, i int) Doc {
 		return Doc{id, stored(fld("a", TermKind("x", KF1, "")), "v1"), stored(fld("a", TermKind("x", KF2L1, ""), TermKind("", KF1, "")), "v2")}
 	case 4: // composite c naming a and b
 		return Doc{id, fld("a", TermKind("x", KF2L1, "")), fld("b", TermKind("x", KF1, "")),
-			fld("c", Term{T: "x", Freq: 3, Locs: []Loc{{F: "a", P: 1, S: 0, E: 3}, {F: "b", P: 1, S: 0, E: 1}}})}
+			fld("c", Term{T: "x", Freq: 3, Locs: []Loc{{F: "a", P: 1, S: 0, E: 3}, {P: 9, S: 5, E: 6}, {F: "b", P: 1, S: 0, E: 1}}})}
 	case 5: // binary terms, big payload
 		return Doc{id, fld("a", TermKind("y\x00\xfe", KF300L2, ""), TermKind("\xff", KF1, "")), fld("d", TermKind("y\x00\xfe", KF1, ""), TermKind("x", KF1, ""))}
 	case 6: // stored-only field (no terms), empty stored value
